@@ -138,8 +138,11 @@ Print Assumptions bucket_grants_iff_holds.
 
 (* TOKEN JOINT BOUND.  n TokenLimiter instances share the key; [pre ++ mid] is ANY history of
    AllowN calls by any instances (each reaching Redis or cut off by the circuit breaker: then the
-   instance falls back exactly as for an outage), clock advances, outages, recoveries and monitor
-   ticks, under either expiry convention, with
+   instance falls back exactly as for an outage), calls with an already cancelled context, calls
+   answered by a faulty store with a forged reply, CONCURRENT calls on one instance (TAllowLate: a
+   call that had read redisAlive = 1 before another call of the instance switched it off; its
+   tokens count), clock advances, outages, recoveries and monitor ticks, under either expiry
+   convention, with
    the hypotheses [twf] (caller-supplied now = store clock, non-decreasing; sizes >= 0).
    (a) every answer of every instance is the answer of the machine [sp_tstep] in which the
        script is replaced by ONE ideal bucket shared by all (a request for n is granted iff
@@ -273,4 +276,14 @@ Example ex_pfault_run :
   prun ex_pcfg (pinit true 0) [PTakeF (BStr "p:a") FCtx; PTakeF (BStr "p:a") (FReply (RInt 7)); PTakeF (BStr "p:a") (FReply (RBulk (BInt 1)));
                                PTake (BStr "p:a") true] =
   [PAns Unknown true; PAns Unknown true; PAns Unknown true; PAns Allowed false].
+Proof. vm_compute. reflexivity. Qed.
+
+(* three concurrent calls on instance 0 notice the outage together: the first starts the monitor,
+   the others find it started; all are answered by the rescue limiter; after recovery both
+   instances are on the shared bucket again *)
+Example ex_concurrent_run :
+  trun ex_cfg (tinit true 1700000000400 2)
+    [TDown; TAllow 0 1700000000400 1 true true; TAllowLate 0 1700000000400 1 true true; TAllowLate 0 1700000000400 2 false true;
+     TUp; TPing 0; TPing 1; TAllow 0 1700000000400 2 true true; TAllowLate 1 1700000000400 1 true true] =
+  [TU; TR true false false; TR true false false; TR false false false; TU; TU; TU; TR true true true; TR false true true].
 Proof. vm_compute. reflexivity. Qed.
